@@ -150,6 +150,9 @@ func (s *Session) Op(opLine, implOut string) {
 	s.curOps = append(s.curOps, opLine)
 }
 
+// CurrentOps returns the op lines of the case being written (header first).
+func (s *Session) CurrentOps() []string { return s.curOps }
+
 func (s *Session) Hit(k string)         { s.Rep.Histogram[k]++ }
 func (s *Session) HitN(k string, n int) { s.Rep.Histogram[k] += n }
 func (s *Session) Nontrivial()          { s.curNontr = true }
